@@ -88,6 +88,42 @@ def fields_of(ops):
     return s
 
 
+def all_fields(body, prog=None):
+    """every field of self (parameter 1) the body, or a closure of it, touches in any statement or terminator"""
+    out = set()
+    bodies = [body]
+    if prog is not None:
+        bodies += [prog.bodies[c] for c in prog.closures_of.get(body.id, [])]
+    for b in bodies:
+        if b.rec["kind"] == "Closure":
+            continue
+        import json as _json
+
+        def scan(pl):
+            if isinstance(pl, dict) and pl.get("l") == 1 and isinstance(pl.get("p"), list):
+                for pr in pl["p"]:
+                    if isinstance(pr, dict) and "n" in pr:
+                        out.add(pr["n"])
+                        break
+
+        def walk(x):
+            if isinstance(x, dict):
+                if "l" in x and "p" in x:
+                    scan(x)
+                for v in x.values():
+                    walk(v)
+            elif isinstance(x, list):
+                for v in x:
+                    walk(v)
+
+        for blk in b.blocks:
+            if blk.get("cleanup"):
+                continue
+            walk(blk["stmts"])
+            walk(blk["term"])
+    return out
+
+
 def field_types(prog, adt):
     a = prog.adts.get(adt)
     if not a or not a["variants"]:
@@ -144,7 +180,7 @@ def check(ctx, rep):
         ftypes = field_types(prog, adt)
         allf = set(ftypes)
         ops = {m: ops_of(b, prog) for m, b in hand.items()}
-        fs = {m: fields_of(o) for m, o in ops.items()}
+        fs = {m: fields_of(o) | all_fields(hand[m], prog) for m, o in ops.items()}
         # derived impls read every field in declaration order
         for m, (b, d) in ms.items():
             if d and m != "Eq":
@@ -171,6 +207,11 @@ def check(ctx, rep):
                     hb = [txt for k, nm, txt in ops["hash"] if "to_bits(" in txt and "." + f in txt]
                     plain_bits = any("to_bits(_1*.%s)" % f in txt for txt in hb)
                     key = "%s:Q1b:float-zero:%s" % (short, f)
+                    # a normalised hash must test *this* field against zero
+                    zero_guard = any(k == "binop" and nm.startswith("Eq") and re.search(r"_1\*\.%s Eq const 0$" % re.escape(f), txt) for k, nm, txt in ops["hash"])
+                    if eq_float and not plain_bits and not eq_bits and not zero_guard:
+                        rep.bad("R-EQ", "R-EQ:" + key, where("hash"), "Q1: %s::hash normalises the value it hashes for .%s, but never tests .%s itself against zero (the test is on another field): +0.0 and -0.0 in .%s are equal with different hashes" % (short, f, f, f))
+                        continue
                     if eq_float and plain_bits and not eq_bits:
                         rep.bad("R-EQ", "R-EQ:" + key, where("hash"), "Q1: %s::eq compares .%s with float == (so +0.0 == -0.0) but hash feeds .%s.to_bits() unnormalised: the two zeros are equal with different hashes" % (short, f, f))
                     else:
@@ -182,6 +223,49 @@ def check(ctx, rep):
                 rep.bad("R-EQ", "R-EQ:" + key, where("cmp") if "cmp" in hand else where("eq"), "Q2: %s::cmp reads %s but eq reads %s: cmp can say Equal for values that are not equal (or the reverse)" % (short, sorted(fs["cmp"]), sorted(fs["eq"])))
             else:
                 rep.ok("R-EQ", key, where("cmp") if "cmp" in hand else where("eq"), "Q2: both read %s" % sorted(fs["cmp"]))
+        # Q2b eq and cmp observe the same aspects of each field
+        if "cmp" in hand and "eq" in hand or ("eq" in hand and ms.get("cmp", (None, False))[0] is not None) or ("cmp" in hand and "eq" in ms):
+            def observers(o):
+                out = set()
+                for k, nm, txt in o:
+                    if k != "call":
+                        continue
+                    last = nm.split("::")[-1]
+                    if last in ("eq", "ne", "cmp", "partial_cmp", "lt", "le", "gt", "ge", "hash", "deref", "as_ref", "borrow", "to_bits", "clone", "is_empty", "len", "keys", "values", "iter", "and_then", "into_iter", "next"):
+                        continue
+                    if nm.startswith(("std::", "core::")) and not nm.startswith(("std::fmt", "core::fmt")) and "chrono" not in nm:
+                        continue
+                    out.add(nm)
+                return out
+            if "eq" in hand and ("cmp" in hand):
+                oe, oc = observers(ops["eq"]), observers(ops["cmp"])
+                key = "%s:Q2b:same-observers" % short
+                if oe != oc:
+                    rep.bad("R-EQ", "R-EQ:" + key, where("eq"), "Q2: %s::eq looks at %s while cmp looks at %s: the two can disagree on whether values are equal" % (short, sorted(x.split('::')[-1] for x in oe) or "the plain fields", sorted(x.split('::')[-1] for x in oc) or "the plain fields"))
+                else:
+                    rep.ok("R-EQ", key, where("eq"), "Q2: eq and cmp apply the same accessors to the fields (%s)" % (sorted(x.split('::')[-1] for x in oe) or "none"))
+            elif "eq" in hand and ms.get("cmp", (None, False))[0] is None and "cmp" in ms:
+                pass
+        # Q2c hand-written eq next to a hand-written / derived cmp on a single-field wrapper: eq must be plain field equality
+        if "eq" in hand and "cmp" in ms:
+            extra = [nm for k, nm, txt in ops["eq"] if k == "call" and nm.split("::")[-1] not in ("eq", "ne", "deref", "as_ref", "to_bits", "borrow", "clone")]
+            cmp_ops = ops.get("cmp")
+            cmp_extra = [nm for k, nm, txt in (cmp_ops or []) if k == "call" and nm.split("::")[-1] not in ("cmp", "partial_cmp", "deref", "as_ref", "borrow", "clone", "eq", "ne", "is_empty", "keys", "values")]
+            key = "%s:Q2c:eq-is-field-equality" % short
+            if extra and not cmp_extra:
+                rep.bad("R-EQ", "R-EQ:" + key, where("eq"), "Q2: %s::eq also compares %s, which cmp does not look at: cmp says Equal for values that eq tells apart" % (short, sorted({x.split("::")[-1] for x in extra})))
+            else:
+                rep.ok("R-EQ", key, where("eq"), "Q2: eq compares the fields cmp orders by, nothing more")
+        # Q4 derived partial_cmp next to a hand-written cmp: the derive is field-wise lexicographic, cmp must be too
+        pc = ms.get("partial_cmp")
+        if pc is not None and pc[1] and "cmp" in hand:
+            key = "%s:Q4:derived-partial_cmp-vs-cmp" % short
+            k2 = [x for x in order_key(ops["cmp"]) if x[1] != "eq"]
+            want = [(f, "cmp") for f in ftypes]
+            if k2 == want:
+                rep.ok("R-EQ", key, where("cmp"), "Q4: cmp is the field-wise lexicographic order the derived partial_cmp uses")
+            else:
+                rep.bad("R-EQ", "R-EQ:" + key, where("cmp"), "Q4: PartialOrd is derived (field-wise: %s) but %s::cmp orders by %s: `<` and cmp can contradict each other" % (want, short, k2))
         # Q3 partial_cmp agrees with cmp
         if "partial_cmp" in hand and ("cmp" in hand or ms.get("cmp", (None, False))[1]):
             key = "%s:Q3:partial_cmp-vs-cmp" % short
